@@ -158,13 +158,20 @@ namespace nmtools::utl
         /*constexpr*/ maybe& operator=(const maybe& other)
         {
             if (other.has_value()) {
-                if constexpr (meta::is_copy_assignable_v<T>) {
+                if (!has_value()) {
+                    // no live value to assign to: construct in place
+                    new(&this->left) T(other.left);
+                } else if constexpr (meta::is_copy_assignable_v<T>) {
                     this->left = other.left;
                 } else {
+                    this->left.~T();
                     new(&this->left) T(other.left);
                 }
                 this->tag  = base::LEFT;
             } else {
+                if (has_value()) {
+                    this->left.~T();
+                }
                 this->right = other.right;
                 this->tag  = base::RIGHT;
             }
